@@ -209,22 +209,6 @@ def c03(chk):
                 elif r["ev"] in ("obs.connect_result",) and "addr" in r:
                     chk.case((addr_kind.get(r["addr"]), r.get("expected"), r["ok"], r.get("peer")))
         sample_events(chk, summ, ("obs.connect_result", "dial.done"), n=3)
-    # (c) specification -> implementation: every behaviour of the ActivePeers state machine (MC_Ap)
-    # up to a depth, and long random walks, executed on the real ActivePeers with real connections
-    chk.add_mc(tlc_mc("MC_Ap.tla", "MC_Ap_quick.cfg" if quick(chk) else "MC_Ap.cfg", workers=8, timeout=900))
-    beh, viol = vlib.tlc_replays("MC_Ap.tla", "SIM_Ap_ex3.cfg" if quick(chk) else "SIM_Ap_ex4.cfg", exhaustive=True, workers=4)
-    if viol:
-        chk.violation("model:" + viol, "TLC: %s in MC_Ap" % viol, {})
-    walks, viol2 = vlib.tlc_replays("MC_Ap.tla", "SIM_Ap.cfg", num=300 if quick(chk) else 5000, depth=16)
-    for name, bs in (("ap-exhaustive", beh), ("ap-walks", walks)):
-        path = vlib.write_json(os.path.join(vlib.WORK, "C04_%s.json" % name), bs)
-        summ = harness("replay-ap", file=path, threads=8)
-        replay_check(chk, name, summ)
-    for b in beh + walks:
-        for s in b["steps"]:
-            if s["ret"] in ("replaced", "rejected", "removed"):
-                chk.distinct.add(json.dumps(("replay", s["op"], s["ret"], s["origin"], len(s["post"]["listing"]))))
-    spec_mutant(chk, "ap_no_lost_on_replace", "MC_Ap.tla", "MC_Ap_quick.cfg", [MUT_NO_LOST_ON_REPLACE], workers=4)
     if not quick(chk):
         spec_mutant(chk, "remove_by_peer", "MC_Conn.tla", "MC_Conn_quick.cfg", [MUT_REMOVE_BY_PEER])
 
@@ -242,7 +226,10 @@ def c09(chk):
     runs = 24 if quick(chk) else 700
     for label, kw in (("ka", dict(keepalive=3000, nodes=3, ops=50)),
                       ("noka", dict(keepalive=0, nodes=3, ops=50)),
-                      ("four", dict(keepalive=3000, nodes=4, ops=90))):
+                      ("four", dict(keepalive=3000, nodes=4, ops=90)),
+                      # every node its own idle timeout (4 / 10 / 25 s) and keep-alive: each is held to the
+                      # bound it configured, whichever way the connection was dialed
+                      ("hetero", dict(keepalive=3000, nodes=3, ops=50, hetero=1))):
         summ = conn_histories(chk, label, seed=chk.seed + 31, runs=runs if label != "four" else runs // 2, jobs=12,
                               files=8, faults=1, restarts=1, known=1, **kw)
         count_cases(chk, summ, lambda r: (
